@@ -1495,12 +1495,29 @@ func c15Limits(d *vCtx) error {
 		tr2.Emit(map[string]any{"e": "scan", "res": "err", "cls": c15ErrClass(msg), "dirfds": -1, "msg": msg}, nil)
 		d.set("xfer_setup_err", msg)
 	}
+	// 3. a tree whose entry headers are long and repetitive (a chain of equally named directories, names of one
+	// repeated character): a header may deflate to a small fraction of its length
+	{
+		rep := &c15Tree{Top: "node_modules"}
+		parent := -1
+		for i := 0; i < 40; i++ {
+			rep.Nodes = append(rep.Nodes, c15Node{Dir: true, Name: "node_modules", Parent: parent})
+			parent = len(rep.Nodes) - 1
+			rep.Nodes = append(rep.Nodes, c15Node{Name: "index.js", Parent: parent, Content: c15Content(rng, 1+rng.Intn(300))})
+			if i%8 == 3 {
+				rep.Nodes = append(rep.Nodes, c15Node{Name: strings.Repeat("a", 200) + fmt.Sprint(i), Parent: parent, Content: c15Content(rng, 10)})
+			}
+		}
+		if err := c15Record(tr2, 4, filepath.Join(root, "rep"), rep, c15Plan{kind: "repetitive", maxRead: 4096, maxWrite: 4096}, rng, stats); err != nil {
+			return err
+		}
+	}
 	for k, v := range stats {
 		d.set(k, v)
 	}
 	d.set("nofile", int(lim.Cur))
 	d.set("events", tr.Len()+tr2.Len())
-	d.set("runs", 3)
+	d.set("runs", 4)
 	if err := tr.Close(); err != nil {
 		return err
 	}
